@@ -381,7 +381,7 @@ def st_hierarchy(ctx: Ctx):
         return st.tuples(kinds, flags, st.booleans()).map(
             lambda t: {"name": name, "kind": t[0], "init": t[1][0], "compare": t[1][1], "kw_only": t[2] and t[1][0]})
 
-    names = ["a", "b", "c", "d", "e", "f", "zz", "Ab", "_raw", "_"]  # (underscore-prefixed names are fields like any other)
+    names = ["a", "b", "c", "d", "e", "f", "zz", "Ab", "_raw", "_", "o", "i", "self", "node", "non_compare", "non_init", "A1"]  # (underscore-prefixed names are fields like any other)
 
     def level():
         return st.lists(st.sampled_from(names), max_size=5, unique=True).flatmap(
